@@ -247,6 +247,14 @@ def _booleanize(a):
     return out
 
 
+def _fork_mask(a):
+    """concrete boolean array for a symbolic mask: one execution path per truth assignment"""
+    out = _np.empty(a.shape, dtype=bool)
+    for idx in _np.ndindex(*a.shape):
+        out[idx] = bool(a[idx])
+    return out
+
+
 def _reduce_axis(a, axis, f):
     """apply f(list_of_elements)->scalar along axis/axes of object array a"""
     a = _plain(_obj(a))
@@ -492,7 +500,7 @@ class SArr(_np.ndarray):
         if _is_symbolic_mask(key):
             b = _booleanize(_plain(key))
             if b is None:
-                raise Unsupported("indexing with a symbolic boolean mask")
+                b = _fork_mask(_plain(key))  # the selection's shape depends on the mask: fork on it
             key = b
         r = _np.ndarray.__getitem__(self, key)
         return r
@@ -503,11 +511,11 @@ class SArr(_np.ndarray):
             if b is None:
                 # a[mask] = v  ==>  a = where(mask, v, a)   (v scalar or same shape as a)
                 mask = _plain(key)
-                if mask.shape != self.shape:
-                    raise Unsupported("symbolic mask of different shape")
                 val = _plain(_obj(value))
-                if val.ndim != 0 and val.shape != self.shape:
-                    raise Unsupported("masked assignment with packed values under a symbolic mask")
+                if mask.shape != self.shape or (val.ndim != 0 and val.shape != self.shape):
+                    # packed values / partial mask: the layout depends on the mask's values: fork on it
+                    _np.ndarray.__setitem__(self, _fork_mask(mask), value)
+                    return
                 for idx in _np.ndindex(*self.shape):
                     v = val[()] if val.ndim == 0 else val[idx]
                     _np.ndarray.__setitem__(self, idx, s_ite(mask[idx], v, _np.ndarray.__getitem__(self, idx)))
@@ -836,7 +844,7 @@ class NPShim:
         "newaxis ndarray pi inf nan e ndindex integer floating int32 int64 float64 float32 int_ "
         "bool_ intp uint8 errstate seterr ndim shape size arange unique bincount isscalar "
         "number generic dtype iinfo array_equiv index_exp s_ ix_ nonzero flatnonzero argsort sort "
-        "count_nonzero searchsorted linspace issubdtype result_type can_cast iterable"
+        "count_nonzero searchsorted linspace issubdtype result_type can_cast iterable broadcast broadcast_shapes"
     ).split()
 
     def __init__(self):
@@ -981,11 +989,25 @@ class NPShim:
     def power(self, a, p, **kw):
         return _unbox(_np.power(_plain(_obj(a)), p))
 
-    def maximum(self, a, b, **kw):
-        return v_max(a, b)
+    @staticmethod
+    def _into(r, kw):
+        out = kw.get("out")
+        if out is None:
+            return r
+        if isinstance(out, tuple):
+            out = out[0]
+        _np.ndarray.__setitem__(out, Ellipsis, _plain(_obj(r)))
+        return out
 
-    def minimum(self, a, b, **kw):
-        return v_min(a, b)
+    def maximum(self, a, b, *args, **kw):
+        if args:
+            kw["out"] = args[0]
+        return self._into(v_max(a, b), kw)
+
+    def minimum(self, a, b, *args, **kw):
+        if args:
+            kw["out"] = args[0]
+        return self._into(v_min(a, b), kw)
 
     def where(self, c, x=None, y=None):
         if x is None:
